@@ -433,4 +433,41 @@ def St.step (σ : St) : Op → St
 
 def St.run (σ : St) (ops : List Op) : St := ops.foldl St.step σ
 
+/-! ## D. the guard of `family.rollup()`: at most one job per source family
+
+`rollup()` starts its goroutine only `if f.rolluping.CompareAndSwap(false, true)`; the job resets the
+flag when it is done. Triggers (scheduler tick, ForceRollup, the harness) may come at any time. The
+model has the two shapes: the atomic compare-and-swap, and "Load, then Store inside the goroutine"
+(not atomic: two triggers can both read `false`). Which one the code has is a regenerated fact. -/
+
+/-- steps of trigger `t` -/
+inductive GStep where
+  /-- `CompareAndSwap(false, true)` and, on success, the start of the job -/
+  | cas (t : Nat)
+  /-- `!rolluping.Load()` -/
+  | load (t : Nat)
+  /-- the goroutine of a trigger that saw `false`: `rolluping.Store(true)`, job running -/
+  | store (t : Nat)
+  /-- end of the job of `t`: `rolluping.Store(false)` -/
+  | finish (t : Nat)
+  deriving Repr, DecidableEq
+
+structure JobGuard where
+  flag : Bool := false
+  /-- triggers whose job is running -/
+  running : List Nat := []
+  /-- triggers that read `false` and have not stored yet -/
+  sawFalse : List Nat := []
+  deriving Repr
+
+def JobGuard.step (g : JobGuard) : GStep → JobGuard
+  | .cas t => if g.flag then g else { g with flag := true, running := t :: g.running }
+  | .load t => if g.flag then g else { g with sawFalse := t :: g.sawFalse }
+  | .store t => if t ∈ g.sawFalse then
+      { flag := true, running := t :: g.running, sawFalse := g.sawFalse.filter (· ≠ t) } else g
+  | .finish t => if t ∈ g.running then
+      { g with flag := false, running := g.running.filter (· ≠ t) } else g
+
+def JobGuard.run (g : JobGuard) (l : List GStep) : JobGuard := l.foldl JobGuard.step g
+
 end LinVerif.Rollup
